@@ -248,3 +248,8 @@ def run(tier):
                   "results": {"%s/%s" % k: r for k, r in sorted(results.items())}, "model_vs_native_notes": notes, "exhaustive": False}
     v.assumptions = ["native stack use is a property of compiled code: the verdict is the exit status of the real binary on this machine's default 8 MiB stack", "depths are sampled by doubling, not exhaustive"]
     return v.finish()
+
+
+def replay(path):
+    import replaytool
+    return replaytool.replay("C08", path)
